@@ -1122,6 +1122,7 @@ func callBuiltin(caller *frame, callpos token.Pos, fn *ssa.Builtin, args []value
 	case "delete": // delete(map[K]value, K)
 		if m := args[0].(*omap); m != nil {
 			caller.i.x.specMapWrite(m)
+			caller.i.x.frozenMapWrite(m)
 			m.delete(caller.i.x, args[1])
 		}
 		return nil
